@@ -32,6 +32,9 @@
 #include <string.h>
 #include <stdint.h>
 
+#include <pthread.h>
+#include <time.h>
+
 #include <intel-ipsec-mb.h>
 
 #define MAX_IDS 256
@@ -228,9 +231,100 @@ traffic(IMB_MGR *m)
                 ;
 }
 
+/* ---- "--conc <seconds>": every initialisation runs the known-answer tests, also while another thread (with its own
+ * manager, as the documentation requires) keeps ending calls with an error.  The probe only counts what the property
+ * names: the START callbacks of one initialisation (= the KATs that ran); whether they pass is not judged here. ---- */
+static volatile int conc_stop;
+static __thread int conc_starts;
+
+static int
+conc_cb(void *arg, const IMB_SELF_TEST_CALLBACK_DATA *data)
+{
+        (void) arg;
+        if (data != NULL && data->phase != NULL && strcmp(data->phase, IMB_SELF_TEST_PHASE_START) == 0)
+                conc_starts++;
+        return 1;
+}
+
+static void *
+conc_noise(void *arg)
+{
+        IMB_MGR *m = alloc_mb_mgr(0);
+
+        (void) arg;
+        if (m == NULL)
+                return NULL;
+        init_mb_mgr_sse(m);
+        while (!conc_stop) {
+                IMB_JOB *j = IMB_GET_NEXT_JOB(m);
+
+                memset(j, 0, sizeof(*j));
+                j->cipher_mode = IMB_CIPHER_CBC;
+                j->hash_alg = IMB_AUTH_NULL;
+                j->chain_order = IMB_ORDER_CIPHER_HASH;
+                j->cipher_direction = IMB_DIR_ENCRYPT;
+                j->msg_len_to_cipher_in_bytes = 16;     /* src == NULL: rejected with IMB_ERR_JOB_NULL_SRC */
+                (void) IMB_SUBMIT_JOB(m);
+                while (IMB_FLUSH_JOB(m) != NULL)
+                        ;
+        }
+        free_mb_mgr(m);
+        return NULL;
+}
+
+static int
+conc_probe(const double secs)
+{
+        static const char *const inits[] = { "sse", "avx2", "avx512", "auto" };
+        int expect[4][4];
+        pthread_t th;
+        struct timespec t0, t1;
+        long n = 0, bad = 0;
+
+        /* what one initialisation announces when nothing else runs */
+        for (int a = 0; a < 4; a++)
+                for (unsigned fl = 0; fl < 4; fl++) {
+                        IMB_MGR *m = alloc_mb_mgr(fl);
+
+                        imb_self_test_set_cb(m, conc_cb, NULL);
+                        conc_starts = 0;
+                        do_init(m, inits[a]);
+                        expect[a][fl] = conc_starts;
+                        free_mb_mgr(m);
+                }
+        pthread_create(&th, NULL, conc_noise, NULL);
+        clock_gettime(CLOCK_MONOTONIC, &t0);
+        for (;;) {
+                const int a = (int) (n % 4);
+                const unsigned fl = (unsigned) ((n / 4) % 4);
+                IMB_MGR *m = alloc_mb_mgr(fl);
+
+                imb_self_test_set_cb(m, conc_cb, NULL);
+                conc_starts = 0;
+                do_init(m, inits[a]);
+                if (conc_starts != expect[a][fl]) {
+                        if (bad < 5)
+                                printf("CONC-BAD init=%s flags=%u starts=%d expected=%d features_selftest=%d errno=%d\n", inits[a], fl,
+                                       conc_starts, expect[a][fl], (m->features & IMB_FEATURE_SELF_TEST) != 0, m->imb_errno);
+                        bad++;
+                }
+                free_mb_mgr(m);
+                n++;
+                clock_gettime(CLOCK_MONOTONIC, &t1);
+                if ((double) (t1.tv_sec - t0.tv_sec) + 1e-9 * (double) (t1.tv_nsec - t0.tv_nsec) > secs)
+                        break;
+        }
+        conc_stop = 1;
+        pthread_join(th, NULL);
+        printf("CONC inits=%ld bad=%ld expected_sse=%d\n", n, bad, expect[0][0]);
+        return 0;
+}
+
 int
 main(int argc, char **argv)
 {
+        if (argc == 3 && strcmp(argv[1], "--conc") == 0)
+                return conc_probe(atof(argv[2]));
         if (argc != 2) {
                 fprintf(stderr, "usage: %s <case-file | ->\n", argv[0]);
                 return 2;
